@@ -140,8 +140,10 @@ def handleValidation (cfg : Cfg) (method : Str) (reqH : Header) (key : Str) (sto
       let h := updateStoredHeaders (Header.del stored.resp.header sAge) r.header
       let stored' : Entry := { stored with requestedAt := start, receivedAt := t1, resp := respWith stored.resp h }
       let out := k (.resp (respWith stored.resp (applyStatus .revalidated h)))
-      -- no-store on the request or on the 304: nothing of the 304 is written
-      if stored.id.isEmpty || ccReq.noStore || (parseCC r.header).noStore then out
+      -- no-store on the request or on the 304: nothing of the 304 is written; neither is it when the merged
+      -- response could not have been stored had it arrived like that
+      if stored.id.isEmpty || ccReq.noStore || (parseCC r.header).noStore ||
+         !canStoreResponse (respWith stored.resp h) ccReq (parseCC h) then out
       else if joinWith [',', ' '] (Header.values h sVary) ≠ joinWith [',', ' '] (Header.values stored.resp.header sVary) then
         -- the 304 changed the Vary field: the response is stored anew for this request, like a full reply
         storeResponse cfg reqH (respWith stored.resp h) true key refs start t1 refIndex fun r' =>
